@@ -164,6 +164,8 @@ impl<T: RealNumber, M: Matrix<T>> InteriorPointOptimizer<T, M> {
 
             let lsiter = 0;
             while lsiter < max_ls_iter {
+                #[cfg(feature = "verif")]
+                crate::verif::tick("lasso.line_search");
                 for i in 0..p {
                     neww.set(i, 0, w.get(i, 0) + s * dx.get(i, 0));
                     newu.set(i, 0, u.get(i, 0) + s * du.get(i, 0));
